@@ -81,11 +81,15 @@ def builtin_map(ip, st, pos, kws):
         else:
             ip.emit("safety", "map-over-iterable", st, FALSE)
         return []
+    if isinstance(xs, Ref) and type(st.heap[xs.cid]).__name__ == "LstCell":
+        from .lib_graph import map_symbolic       # partial(operator.mul, c) over a list of numbers of symbolic length
+        return map_symbolic(ip, st, f, ip.as_view(st, xs))
     if not (isinstance(xs, (Tup, View)) or (isinstance(xs, Ref) and type(st.heap[xs.cid]).__name__ in ("PyListCell",))):
         raise U("map over %r" % (xs,))
     view = ip.as_view(st, xs)
     if view.items is None:
-        raise U("map over a sequence of symbolic length")
+        from .lib_graph import map_symbolic
+        return map_symbolic(ip, st, f, view)
     items = []
     for x in view.items:
         heap0, env0, n_exc = dict(st.heap), dict(st.env), len(ip._exc_out)
